@@ -283,14 +283,26 @@ fn command_go(
             let _scope = crate::verif_hooks::ThreadScope::enter("search");
             #[cfg(daniel729_chess_verif)]
             crate::verif_hooks::point_lock("search_lock", &*data_mutex);
-            let mut data = data_mutex.lock().unwrap();
-            let (current_game, cache) = data.mut_refs();
-            let best_move = get_best_move_until_stop(
-                current_game.as_mut().unwrap(),
-                cache,
-                &search_is_running,
-                depth,
-            );
+            let best_move = {
+                let mut data = data_mutex.lock().unwrap();
+                let (current_game, cache) = data.mut_refs();
+                let best_move = get_best_move_until_stop(
+                    current_game.as_mut().unwrap(),
+                    cache,
+                    &search_is_running,
+                    depth,
+                );
+                *current_game = None;
+                #[cfg(daniel729_chess_verif)]
+                crate::verif_hooks::point("search_unlock");
+                best_move
+            };
+
+            // The engine must be ready for the next command by the time the GUI reads
+            // the best move, so release everything before announcing it
+            #[cfg(daniel729_chess_verif)]
+            crate::verif_hooks::point("search_clear_flag");
+            search_is_running.store(false, Relaxed);
 
             #[cfg(daniel729_chess_verif)]
             crate::verif_hooks::point("search_print_bestmove");
@@ -299,13 +311,6 @@ fn command_go(
             } else {
                 println!("bestmove none");
             }
-
-            #[cfg(daniel729_chess_verif)]
-            crate::verif_hooks::point("search_clear_flag");
-            search_is_running.store(false, Relaxed);
-            *current_game = None;
-            #[cfg(daniel729_chess_verif)]
-            crate::verif_hooks::point("search_unlock");
         }
     });
 
